@@ -8,38 +8,41 @@
    hash) of theta/sketch.rs, byte for byte (Model/ThetaCodec.v); the reader is the REPAIRED code
    (known_findings.d/theta-*.json).  [c_wf sh c]: entries in (0, theta), 0 < theta <= 2^63-1,
    ordered => strictly ascending, empty => no entries and theta = 2^63-1, fewer than 2^32 entries,
-   seed hash = sh unless empty.  Equality [Ok c] is equality of the whole value, so every query
+   seed hash = sh unless empty.  Distinctness of the entries is NOT part of it: the crate's reader (like
+   the C++ one) does not look for repeated hashes in an unordered image; for ordered values it follows
+   from strict ascent.  [c_deserialize sh] first rejects sh = 0 (a seed whose 16-bit seed hash is zero
+   is unusable: the repaired deserialize_with_seed returns Err for it).  Equality [Ok c] is equality of the whole value, so every query
    (estimate, theta, bounds, emptiness, order, iteration) and every re-serialization coincide. *)
 From DS Require Import Base.Prelude Base.BitExp Base.ThetaLib Model.Theta Model.ThetaCodec Spec.ThetaLayout.
 From DS Require Import Proofs.ThetaProofs Proofs.ThetaKmv Proofs.ThetaBitSym Proofs.ThetaBitPack Proofs.ThetaCodec Proofs.ThetaCodecReach.
 Open Scope N_scope.
 
 Theorem c11_theta_roundtrip_uncompressed :
-  forall sh c, c_wf sh c -> c_deserialize sh (c_serialize c) = Ok c.
-Proof. exact roundtrip_v3. Qed.
+  forall sh c, sh <> 0 -> c_wf sh c -> c_deserialize sh (c_serialize c) = Ok c.
+Proof. exact ep_roundtrip_v3. Qed.
 
 (* serVer 4: every ordered sketch with entries (delta widths 1..63, any length incl. every length mod 8) *)
 Theorem c11_theta_roundtrip_v4 :
-  forall sh c, c_wf sh c -> c_is_suitable_for_compression c = true ->
+  forall sh c, sh <> 0 -> c_wf sh c -> c_is_suitable_for_compression c = true ->
   exists bs, c_serialize_v4 c = Ok bs /\ c_deserialize sh bs = Ok c.
-Proof. exact roundtrip_v4. Qed.
+Proof. exact ep_roundtrip_v4. Qed.
 
 Theorem c11_theta_roundtrip_compressed :
-  forall sh c, c_wf sh c -> exists bs, c_serialize_compressed c = Ok bs /\ c_deserialize sh bs = Ok c.
-Proof. exact roundtrip_compressed. Qed.
+  forall sh c, sh <> 0 -> c_wf sh c -> exists bs, c_serialize_compressed c = Ok bs /\ c_deserialize sh bs = Ok c.
+Proof. exact ep_roundtrip_compressed. Qed.
 
 (* the round trips also apply to everything the (repaired) reader returns: whatever it accepts is
    well-formed -- in particular an image flagged EMPTY that carries entries is rejected
    (known_findings.d/theta-v4-empty-flag-with-entries.json) *)
 Theorem c11_theta_deserialized_wf :
-  forall sh bs c, sh < 65536 -> bytes_lt bs -> c_deserialize sh bs = Ok c -> c_wf sh c.
-Proof. exact deserialize_ok_wf. Qed.
+  forall sh bs c, sh < 65536 -> bytes_lt bs -> c_deserialize sh bs = Ok c -> sh <> 0 /\ c_wf sh c.
+Proof. exact ep_ok_wf. Qed.
 
 Theorem c11_theta_deserialized_roundtrips :
   forall sh bs c, sh < 65536 -> bytes_lt bs -> c_deserialize sh bs = Ok c ->
   c_deserialize sh (c_serialize c) = Ok c /\
   exists bs', c_serialize_compressed c = Ok bs' /\ c_deserialize sh bs' = Ok c.
-Proof. exact deserialized_roundtrips. Qed.
+Proof. exact ep_deserialized_roundtrips. Qed.
 
 (* reachable_wf: whatever compact(ordered) returns for a sketch reached by any history of
    update/trim/reset is well-formed, for every configuration and EVERY sampling probability: the starting
